@@ -140,6 +140,10 @@ func init() {
 			g.block("advance", func() bool { return fired })
 			return Value{}, true
 		},
+		// vAllocated() int64: bytes allocated so far by make, new and append growth in interpreted code
+		"vAllocated": func(g *Goroutine, c *frame, fn *ssa.Function, a []Value) (Value, bool) {
+			return mkInt(64, uint64(g.p.allocBytes)), true
+		},
 		"vNowNanos": func(g *Goroutine, c *frame, fn *ssa.Function, a []Value) (Value, bool) {
 			return mkInt(64, uint64(g.p.sched.now)), true
 		},
